@@ -197,8 +197,16 @@ string_chars = st.one_of(
                   blacklist_categories=('Cs',)))
 
 
+# whole strings that coincide with a piece of syntax or with a name in scope
+WHOLE_STRINGS = [']', '}', ')', '[', '{', '(', 'round', 'random', 'q_r',
+                 'q_w', 'all', 'default', 'end', 'begin', 'and', 'as', 'a',
+                 'q_v', '#', '-', '8:00', '5', 'not', 'with', 'zone']
+
+
 @st.composite
 def strings(draw, allow_trailing_backslash):
+    if draw(st.integers(0, 3)) == 0:
+        return draw(st.sampled_from(WHOLE_STRINGS))
     parts = draw(st.lists(string_chars, min_size=0, max_size=12))
     text = ''.join(parts)
     text = text.replace('\\"', '\\ ')
@@ -229,6 +237,27 @@ def check_string(acc, text):
         acc.fail('string-print:altered' + suffix,
                  'println of the string {!r} wrote {!r}'.format(text, outputs),
                  case)
+        return
+    # as an argument (plain and bracketed call), as a macro value that is
+    # defined while routines exist, as the whole value of a variable whose
+    # name it may equal, last on a line and followed by more text
+    problem, outputs = printed(
+        'define q_r with q_p println q_p define q_w begin println 7 end '
+        'q_r "{0}" [q_r "{0}"] define q_m "{0}" println q_m '
+        'assign a "{0}" println a'.format(text))
+    if problem is not None:
+        import re
+        shape = re.sub(r'"[^"]*"|\d+', '', problem.split(':', 2)[-1])
+        shape = '-'.join(shape.split()[:4])
+        acc.fail('string-argument:' + problem.split(':')[0] + ':' + shape +
+                 suffix,
+                 'the string "{0}" as argument / macro value / variable '
+                 'value -> {1}'.format(text, problem), case)
+        return
+    if outputs != [text] * 4:
+        acc.fail('string-argument:altered' + suffix,
+                 'the string {!r} as argument / macro value / variable value '
+                 'printed {!r}'.format(text, outputs), case)
         return
     if text == '':
         return
@@ -262,14 +291,17 @@ def layouts(draw, token_list):
         if index + 1 == len(tokens):
             break
         nxt = tokens[index + 1]
-        glue_ok = (kind == 'mark' or nxt[1] == 'mark') and kind != 'pat' \
+        glue_ok = (kind == 'mark' or nxt[1] == 'mark') and not (
+            kind == 'pat' and nxt[0] not in (']', ')', '}')) \
             and not (text == '-' and nxt[0] == '-')
         choice = draw(st.integers(0, 9))
         if glue_ok and choice < 5:
             removed_space = True
             continue
         if choice == 9:
-            out.append(' # ' + draw(comment_text) + '\n')
+            # a comment needs no white space in front of it
+            out.append(draw(st.sampled_from([' # ', '#', ' #'])) +
+                       draw(comment_text) + '\n')
         else:
             out.append(SEPARATORS[draw(st.integers(0, len(SEPARATORS) - 1))])
     tail = draw(st.sampled_from(['', '\n', ' # end', '   ']))
